@@ -278,7 +278,12 @@ func vRecipients(st *vStep, pre *vPre) {
 			if !fromServer && (m.Command == irc.PRIVMSG || m.Command == irc.NOTICE) && len(m.Params) > 0 {
 				wide = verifAnd(pre.actor.oper, strings.HasPrefix(m.Params[0], "$"))
 			}
-			verifAssert(verifImplies(got, verifOr(isActor, named, viaChan, viaSubject, wide)), "recipient-is-entitled")
+			// the closing ERROR goes to the session that is being closed
+			closing := false
+			if m.Command == irc.ERROR {
+				closing = verifOr(sx.deleted, !vLive(i, sx))
+			}
+			verifAssert(verifImplies(got, verifOr(isActor, named, viaChan, viaSubject, wide, closing)), "recipient-is-entitled")
 			// completeness: a channel message reaches every other member
 			if !fromServer && (m.Command == irc.PRIVMSG || m.Command == irc.NOTICE) && len(m.Params) > 0 && st.role != vRoleServices {
 				for c, ch := range t.chans {
